@@ -95,7 +95,17 @@ func c12Goroutines() (int, map[string]int) {
 
 // c12Settle waits for the goroutines started by the calls to end: at once if none is left, otherwise a grace period
 // of 100 ms, doubling up to 2 s while the count still falls
-func c12Settle(base int) (left int, kinds map[string]int, waited time.Duration) {
+func c12Settle(base int, baseKinds map[string]int) (left int, kinds map[string]int, waited time.Duration) {
+	defer func() {
+		// report what was added since the base line
+		d := map[string]int{}
+		for k, n := range kinds {
+			if n > baseKinds[k] {
+				d[k] = n - baseKinds[k]
+			}
+		}
+		kinds = d
+	}()
 	runtime.Gosched()
 	t0 := time.Now()
 	n, k := c12Goroutines()
@@ -162,7 +172,7 @@ func c12RunTok(job *C12Job) C12Result {
 		defer func() { recover() }()
 		res.Received, res.Total, _ = g.received(src)
 	}()
-	base, _ := c12Goroutines()
+	base, baseKinds := c12Goroutines()
 	for i := 0; i < job.Calls; i++ {
 		func() {
 			defer func() {
@@ -178,7 +188,7 @@ func c12RunTok(job *C12Job) C12Result {
 		}()
 	}
 	var w time.Duration
-	res.Left, res.Kinds, w = c12Settle(base)
+	res.Left, res.Kinds, w = c12Settle(base, baseKinds)
 	res.WaitedMs = int(w.Milliseconds())
 	return res
 }
@@ -197,7 +207,7 @@ func c12RunPipe(job *C12Job) C12Result {
 		return res
 	}
 	c12Gids = sync.Map{}
-	base, _ := c12Goroutines()
+	base, baseKinds := c12Goroutines()
 	for i := 0; i < job.Calls; i++ {
 		func() {
 			defer func() {
@@ -218,7 +228,7 @@ func c12RunPipe(job *C12Job) C12Result {
 		res.Outcome = res.Outcome[:120]
 	}
 	var w time.Duration
-	res.Left, res.Kinds, w = c12Settle(base)
+	res.Left, res.Kinds, w = c12Settle(base, baseKinds)
 	res.WaitedMs = int(w.Milliseconds())
 	gids := 0
 	c12Gids.Range(func(k, v any) bool { gids++; return true })
